@@ -47,8 +47,15 @@ def run_plan(version: str, cmds: list, wakes: list, plan: list, fault: str = "fa
         if phase == "final":
             s.transport.fail_plan = None
         for n in wl:
-            out = s.line(f"{n};255;3;0;{wt};0")
-            trace.append({"wake": n, "phase": phase, "attempts": out.attempts, "outcome": out.describe()})
+            if isinstance(n, list):
+                # not a wake: the (sleeping) node requests the value of child/type of a parked set command
+                rk = n[1]
+                out = s.line(f"{rk[0]};{rk[1]};2;0;{rk[3]};")
+                is_req, n = True, rk[0]
+            else:
+                out = s.line(f"{n};255;3;0;{wt};0")
+                is_req = False
+            trace.append({"wake": n, "req": is_req, "phase": phase, "attempts": out.attempts, "outcome": out.describe()})
             if phase == "faulty":
                 nattempts += len(out.attempts)
             any_fail = any(not ok for _, ok in out.attempts)
@@ -97,21 +104,42 @@ def explore_case(job):
     return n_exec, n_faulty, viols
 
 
+def race_pass(ctx: core.Ctx):
+    """Write faults while the application sends concurrently: reuses the schedule explorer and scenario of C09
+    with one failing flush write (every schedule with <= 2 early firings)."""
+    from .. import explore
+    from . import c09
+
+    cfgs = [
+        {"version": "2.2", "parked": [c09.A], "senders": [[c09.A]], "faults": 1},
+        {"version": "2.1", "parked": [c09.A, c09.B], "senders": [[c09.B], [c09.A]], "faults": 1},
+        {"version": "2.0", "parked": [c09.I, c09.A], "senders": [[c09.A]], "faults": 1},
+    ]
+    res = explore.explore(ctx, c09.MOD, cfgs, 2)
+    viols = [core.Violation("C08|race|" + v.key.split("|", 1)[1], "write fault while the application sends: " + v.what, dict(v.replay, race=True)) for v in res["violations"]]
+    return res["executions"], viols
+
+
 def run(ctx: core.Ctx) -> core.Report:
     versions = ["2.1", "2.2"] if ctx.quick else ["2.0", "2.1", "2.2"]
     subsets = [list(c) for r in range(1, 5) for c in itertools.combinations(KEYS, r)]
     wake_seqs = [list(w) for r in range(1, 4) for w in itertools.product((1, 2), repeat=r)]
+    req_seqs = [[["req", [1, 3, 1, 2]]], [["req", [1, 3, 1, 2]], 1], [1, ["req", [1, 3, 1, 2]]], [["req", [1, 3, 1, 3]], ["req", [1, 3, 1, 2]], 1], [["req", [2, 3, 1, 2]], 2]]
     jobs = [(v, [list(k) for k in sub], w, "failed") for v in versions for sub in subsets for w in wake_seqs]
+    jobs += [(v, [list(k) for k in sub], w, "failed") for v in versions for sub in subsets if len(sub) <= 3 for w in req_seqs]
     # the Transport contract is TransportError: also a plain TransportError and a transport's own subclass
     jobs += [(versions[-1], [list(k) for k in sub], w, f) for f in ("plain", "custom") for sub in subsets if len(sub) <= 3 for w in wake_seqs if len(w) <= 2]
     res = core.pmap(explore_case, jobs, ctx.workers)
     n_exec = sum(r[0] for r in res)
     n_faulty = sum(r[1] for r in res)
     viols = [core.Violation(k, w, rep) for r in res for k, w, rep in r[2]]
+    nrace, rv = race_pass(ctx)
+    viols += rv
+    n_exec += nrace
     cov = {
         "evaluations": n_exec,
         "distinct_nontrivial": n_faulty,
-        "rule": "for every non-empty subset (size <= 4) of 5 commands (4 set commands over 2 nodes + 1 internal command) x every sequence of 1-3 wakes x every ok/fail assignment to the transport write attempts those wakes make (a tree: later attempts depend on earlier outcomes), followed by one fault-free wake of each node; each execution is distinct; non-trivial = at least one write fails",
+        "rule": "for every non-empty subset (size <= 4) of 5 commands (4 set commands over 2 nodes + 1 internal command) x every sequence of 1-3 wakes x every ok/fail assignment to the transport write attempts those wakes make (a tree: later attempts depend on earlier outcomes), (and 5 sequences in which the sleeping node requests the value of a parked command before or after its wake), followed by one fault-free wake of each node; plus 3 send-during-flush scenarios with one failing write (every schedule with <= 2 early firings); each execution is distinct; non-trivial = at least one write fails",
         "exhaustive": True,
         "bounds": {"versions": versions, "subsets": len(subsets), "wake_sequences": len(wake_seqs)},
         "samples": [{"version": jobs[i][0], "cmds": jobs[i][1], "wakes": jobs[i][2]} for i in (ctx.seed % len(jobs), len(jobs) - 1)],
@@ -120,5 +148,10 @@ def run(ctx: core.Ctx) -> core.Report:
 
 
 def replay(data: dict) -> dict:
+    if data.get("race"):
+        from .. import explore
+        from . import c09
+
+        return explore.replay(c09.MOD, data)
     _, v, trace = run_plan(data["version"], data["cmds"], data["wakes"], data["plan"], data.get("fault", "failed"))
     return {"violated": bool(v), "violations": [{"key": k, "what": w} for k, w, _ in v], "trace": trace}
